@@ -42,6 +42,7 @@ RULE = (
     "construction); a history is non-trivial when >= 3 of its operations changed the mapping; distinct = distinct "
     "history JSON"
 )
+RULE += " " + 'Added after the seeding rounds: SSC charts constructed by SSCChart.from_str (parsing stops at the note key, the rest is assigned by key); inequality with a twin holding the same keys in rotated order with the same sequence of values; unrelated keys that spell attribute / method names in upper case (EXTRADATA, ITEMS, KEYS, GET, ...).'
 ASSUMPTIONS = [
     "msdparser.parse_msd is the trusted tokenizer for reading serialized text back",
     "the attribute/key/alias tables in vf/simmodel.py are a faithful transcription of docs/source/known-properties.rst",
